@@ -62,6 +62,7 @@ type Scenario struct {
 	StallOctets int            `json:"stall_octets,omitempty"`
 	ShutAfter   int            `json:"shut_after,omitempty"` // udp: Shutdown is called after this many steps, while peers are still sending (0 = after they are done)
 	Transient   []int          `json:"transient,omitempty"`  // these accept / datagram-read attempts fail with a temporary, non-timeout error
+	UDPSock     bool           `json:"udp_sock,omitempty"`   // udp: the server runs on a UDP socket (SessionUDP branch) where the build has that seam
 	Msgs        []InMsg        `json:"msgs,omitempty"`
 	Initial     map[string]int `json:"initial,omitempty"` // mux: patterns registered before the tasks start
 	Ops         []MuxOp        `json:"ops,omitempty"`
@@ -131,6 +132,7 @@ func Gen(seed uint64, tier string) any {
 	sc.ShortRead = core.Pick(r, 0, 40)
 	sc.Yield = core.Chance(r, 40)
 	sc.Peers = 1 + r.IntN(3)
+	sc.UDPSock = sc.Transport == "udp" && core.Chance(r, 50)
 	if sc.Transport == "udp" && core.Chance(r, 25) {
 		sc.ShutAfter = 5 + r.IntN(60)
 		sc.Dup = 0
@@ -558,8 +560,13 @@ func runAdmission(sc *Scenario, res *core.Result, verbose bool) {
 		a.l = n.Listen()
 		a.srv.Listener = a.l
 	} else {
-		a.pc = n.ListenPacket()
+		uc := n.ListenUDP()
+		a.pc = uc.PacketConn
 		a.srv.PacketConn = a.pc
+		if sc.UDPSock && common.UDPSeam {
+			a.srv.PacketConn = common.ServerSocket(uc)
+			res.Bump("cover.server_on_udp_socket")
+		}
 	}
 	if a.pc != nil {
 		a.pc.Transient = sc.Transient
